@@ -176,6 +176,14 @@ LOADERS = ["load_gunpoint", "load_osuleaf", "load_italy_power_demand", "load_jap
            "load_acsf1", "load_basic_motions"]
 
 
+def _same_label(x, y):
+    """the same class label, read as a number where both are numbers and as text otherwise"""
+    try:
+        return float(x) == float(y)
+    except (TypeError, ValueError):
+        return str(x).strip().lower() == str(y).strip().lower()
+
+
 def oracle_formats(case, ctx):
     name, has_tsv = FORMAT_SETS[case["i"]]
     ctx.mark_nontrivial(True)
@@ -201,15 +209,13 @@ def oracle_formats(case, ctx):
         d = _same_panel(_dec(ts[0]), _dec(tsv[0]), 1e-4)
         if d:
             discs.append(D("ts_vs_tsv:%s" % name, d))
-        a, b = [float(v) for v in ts[1]], [float(v) for v in tsv[1]]
-        # UCR tsv files number the classes; the mapping must be a bijection consistent per instance
-        m = {}
-        for x, y in zip(a, b):
-            if m.setdefault(x, y) != y:
-                discs.append(D("ts_vs_tsv_labels:%s" % name, "label %r maps to %r and %r" % (x, m[x], y)))
+        # the same labels: a UCR tsv file holds the class as a number, the .ts file as text
+        if len(ts[1]) != len(tsv[1]):
+            discs.append(D("ts_vs_tsv_labels:%s" % name, "%d vs %d labels" % (len(ts[1]), len(tsv[1]))))
+        for i, (x, y) in enumerate(zip(ts[1], tsv[1])):
+            if not _same_label(x, y):
+                discs.append(D("ts_vs_tsv_labels:%s" % name, "instance %d: .ts %r .tsv %r" % (i, x, y)))
                 break
-        if len(set(m.values())) != len(m):
-            discs.append(D("ts_vs_tsv_labels:%s" % name, "not a bijection: %r" % m))
     return discs
 
 
